@@ -25,22 +25,63 @@ def query(data, comp="VEVENT"):
             '<C:comp-filter name="%s"/></C:comp-filter></C:filter></C:calendar-query>' % (NS, props, comp)).encode()
 
 
-def parse(resp, w, X):
+def parse(resp, w, X, base=None):
     """-> {member name: [status class, etag id, data id, has contenttype]} (ids by interner X)"""
     out = {}
     if resp is None or resp.status != 207:
-        return {"_status": [str(getattr(resp, "status", 0)), 0, 0, False]}
+        return {"_status": [str(getattr(resp, "status", 0)), 0, 0, 0]}
     rs, _ = alpha.parse_multistatus(resp.body)
-    b = urllib.parse.unquote(w.url(BASE))
+    b = urllib.parse.unquote(w.url(base or BASE))
     for x in rs:
         h = urllib.parse.unquote(x.href or "")
         n = h[len(b):] if h.startswith(b) else h
+        n = n or "."
         et = x.text(DAV + "getetag")
-        d = x.text(CALDAV + "calendar-data")
-        ct = x.text(DAV + "getcontenttype")
+        d = x.text(CALDAV + "calendar-data") or x.text("{%s}address-data" % CARD)
+        # which properties were answered (by status) - the shape of the answer
+        shape = sorted("%s=%s" % (k.rsplit("}", 1)[-1], v[0]) for k, v in x.props.items())
         out[n] = ["notfound" if x.status == 404 else "ok", X(et) if et else 0,
-                  X(d.replace("\r\n", "\n")) if d else 0, ct is not None]
+                  X(d.replace("\r\n", "\n")) if d else 0, X("|".join(shape))]
     return out
+
+
+ABASE = "/user/contacts/r/"
+CARD = "urn:ietf:params:xml:ns:carddav"
+
+
+def abquery(data, needle=None, limit=None):
+    props = "<D:getetag/>" + ('<A:address-data/>' if data else "")
+    flt = ('<A:filter><A:prop-filter name="FN"><A:text-match collation="i;unicode-casemap" match-type="contains">%s'
+           '</A:text-match></A:prop-filter></A:filter>' % needle) if needle else "<A:filter/>"
+    lim = "<A:limit><A:nresults>%d</A:nresults></A:limit>" % limit if limit is not None else ""
+    return ('<?xml version="1.0"?><A:addressbook-query xmlns:D="DAV:" xmlns:A="%s"><D:prop>%s</D:prop>%s%s'
+            '</A:addressbook-query>' % (CARD, props, flt, lim)).encode()
+
+
+def abmultiget(hrefs, data):
+    props = "<D:getetag/>" + ('<A:address-data/>' if data else "")
+    return ('<?xml version="1.0"?><A:addressbook-multiget xmlns:D="DAV:" xmlns:A="%s"><D:prop>%s</D:prop>%s'
+            '</A:addressbook-multiget>' % (CARD, props, "".join("<D:href>%s</D:href>" % h for h in hrefs))).encode()
+
+
+def propfind(names):
+    return ('<?xml version="1.0"?><D:propfind xmlns:D="DAV:" xmlns:C="urn:ietf:params:xml:ns:caldav"><D:prop>%s</D:prop>'
+            '</D:propfind>' % "".join("<%s/>" % n for n in names)).encode()
+
+
+# pairs on an address book (base ABASE) and PROPFIND pairs (method PROPFIND)
+AB_PAIRS = {
+    "abquery-all-data/abquery-limit1": (lambda w: ("1", abquery(True)), lambda w: ("1", abquery(False, limit=1))),
+    "abquery-ada/abquery-bob-data": (lambda w: ("1", abquery(False, "Ada")), lambda w: ("1", abquery(True, "Bob"))),
+    "abmultiget-data/abquery-etag": (lambda w: ("1", abmultiget([w.url(ABASE + n) for n in ("a.vcf", "b.vcf", "c.vcf")], True)),
+                                     lambda w: ("1", abquery(False, limit=2))),
+}
+PF_PAIRS = {
+    "propfind-etag+type/propfind-name": (lambda w: ("1", propfind(["D:getetag", "D:getcontenttype"])),
+                                         lambda w: ("1", propfind(["D:displayname", "D:resourcetype"]))),
+    "propfind-depth1/propfind-depth0": (lambda w: ("1", propfind(["D:getetag", "D:resourcetype"])),
+                                        lambda w: ("0", propfind(["D:getetag", "D:getcontenttype", "C:calendar-description"]))),
+}
 
 
 PAIRS = {
@@ -58,21 +99,29 @@ PAIRS = {
 def run_pair(name, stride=1, maxruns=60):
     from .alpha import Interner
     X = Interner()
-    mkA, mkB = PAIRS[name]
+    table = PAIRS if name in PAIRS else AB_PAIRS if name in AB_PAIRS else PF_PAIRS
+    mkA, mkB = table[name]
+    method = "PROPFIND" if table is PF_PAIRS else "REPORT"
+    base = ABASE if table is AB_PAIRS else BASE
     w = World(frontend="wsgi", prefix="/")
     recs = []
     try:
-        assert w.request("MKCALENDAR", BASE).status in range(200, 300)
-        for n, k in (("a.ics", 1), ("b.ics", 3), ("c.ics", 7)):
-            assert w.request("PUT", BASE + n, [("Content-Type", "text/calendar")], gamma.model_body(k)[0]).status in range(200, 300)
-        assert w.request("PUT", BASE + "t.ics", [("Content-Type", "text/calendar")],
-                         gamma.ics_event("rr-todo", "a task", comp="VTODO", dtend=None)).status in range(200, 300)
-        path = w.fspath(BASE.rstrip("/"))
+        if table is AB_PAIRS:
+            assert w.request("MKCOL", ABASE, [("Content-Type", "text/xml")], gamma.mkcol_body("addressbook")).status in range(200, 300)
+            for n, fn in (("a.vcf", "Ada Lovelace"), ("b.vcf", "Bob Builder"), ("c.vcf", "Charles Babbage")):
+                assert w.request("PUT", ABASE + n, [("Content-Type", "text/vcard")], gamma.vcard(fn, uid="rr-" + n)).status in range(200, 300)
+        else:
+            assert w.request("MKCALENDAR", BASE).status in range(200, 300)
+            for n, k in (("a.ics", 1), ("b.ics", 3), ("c.ics", 7)):
+                assert w.request("PUT", BASE + n, [("Content-Type", "text/calendar")], gamma.model_body(k)[0]).status in range(200, 300)
+            assert w.request("PUT", BASE + "t.ics", [("Content-Type", "text/calendar")],
+                             gamma.ics_event("rr-todo", "a task", comp="VTODO", dtend=None)).status in range(200, 300)
+        path = w.fspath(base.rstrip("/"))
 
         def req(mk):
             depth, body = mk(w)
-            return lambda: w.request("REPORT", BASE, [("Content-Type", "text/xml"), ("Depth", depth)], body)
-        alone = parse(req(mkA)(), w, X)
+            return lambda: w.request(method, base, [("Content-Type", "text/xml"), ("Depth", depth)], body)
+        alone = parse(req(mkA)(), w, X, base)
         # how many gate steps does A take when it runs alone?
         sc = sched.Scheduler(path, 1)
         with sc:
@@ -93,7 +142,7 @@ def run_pair(name, stride=1, maxruns=60):
                 ta.join(10)
                 tb.join(10)
             ra = sc.results.get("A")
-            got = parse(ra[1] if ra and ra[0] == "ok" else None, w, X)
+            got = parse(ra[1] if ra and ra[0] == "ok" else None, w, X, base)
             recs.append({"pair": name, "i": i, "gates": gates, "alone": alone, "got": got, "stuck": sc.stuck})
         return recs
     finally:
